@@ -38,14 +38,18 @@ theorem descendants_any_depth (root x : Item) : x ∈ descendants root ↔ Below
 
 /-! ## acceptance -/
 
-/-- **Acceptance, completely characterised.**  A document is built iff evidence was supplied, verification
-details are present when verified, there is one root with a content sequence, every IMAGE/COMPOSITE
-reference at any depth has supplied evidence, and — unless the class is Comprehensive 3D — the tree holds
-no SCOORD3D item at any depth. -/
+/-- **Acceptance, characterised within the model's scope.**  A document is built iff evidence was supplied, verification
+details are present when verified, there is one root; every item of the tree has a value type of the enumeration and —
+below the root — a relationship type (`Convertible`: what the conversion of the copied tree demands; the enumeration is
+read from `sr/enum.py` on every run, T15e); the root has no relationship, is a CONTAINER and has a content sequence;
+every IMAGE/COMPOSITE reference at any depth has supplied evidence; and — unless the class is Comprehensive 3D — the tree
+holds no SCOORD3D item at any depth.  Outside the model (hypotheses of this reading): every item is otherwise a valid
+content item of its value type (C13: required attributes, concept names), the evidence data sets carry the patient /
+study attributes `SOPClass.__init__` reads, the transfer syntax is one of the two supported ones. -/
 theorem accepted_iff (a : DocArgs) :
     (∃ d, buildSR a = .ok d) ↔
       a.evidence ≠ [] ∧ (a.verified = true → a.hasObserver = true ∧ a.hasOrganization = true) ∧ a.nRoots = 1 ∧
-      a.tree.rel = none ∧ a.tree.vt = "CONTAINER" ∧
+      Convertible a.tree ∧ a.tree.rel = none ∧ a.tree.vt = "CONTAINER" ∧
       a.tree.hasSeq = true ∧ RefsSupplied a.tree a.evidence ∧ (a.cls ≠ .comprehensive3d → NoScoord3d a.tree) := by
   constructor
   · rintro ⟨d, hd⟩
@@ -59,6 +63,9 @@ theorem accepted_iff (a : DocArgs) :
     split at hd
     · cases hd
     rename_i hroots
+    split at hd
+    · cases hd
+    rename_i _ hconv
     split at hd
     · cases hd
     rename_i hrel
@@ -79,7 +86,7 @@ theorem accepted_iff (a : DocArgs) :
       cases hh : a.tree.hasSeq with
       | true => rfl
       | false => simp [countScoord3d, findContentItems, hh, Except.map] at hn
-    refine ⟨by simpa using hev, ?_, by simpa using hroots, by simpa using hrel, by simpa using hvtc, hseq, ?_, ?_⟩
+    refine ⟨by simpa using hev, ?_, by simpa using hroots, (convertTree_ok_iff _).mp hconv, by simpa using hrel, by simpa using hvtc, hseq, ?_, ?_⟩
     · intro hv
       unfold Gen.srVerifiedGuard at hguard
       cases ho : a.hasObserver <;> cases hg : a.hasOrganization <;> simp [hv, ho, hg] at hguard ⊢
@@ -139,7 +146,8 @@ theorem accepted_iff (a : DocArgs) :
         · exact h0
         · have h1 : 0 < n := by omega
           simp [h1] at hsg
-  · rintro ⟨hev, hver, hroots, hrel, hvtc, hseq, hrefs, h3d⟩
+  · rintro ⟨hev, hver, hroots, hconv, hrel, hvtc, hseq, hrefs, h3d⟩
+    have hconv' := (convertTree_ok_iff _).mpr hconv
     obtain ⟨refs, hr⟩ := refUids_ok_of_supplied a.tree a.evidence hseq hrefs
     have hall : ∀ u ∈ refs, u ∈ a.evidence.map (·.inst) := by
       intro u hu
@@ -175,12 +183,7 @@ theorem accepted_iff (a : DocArgs) :
     refine ⟨{ content := a.tree, current := cur, other := if a.record then oth else [],
               predecessors := a.previous.map predecessors, verifiedFlag := a.verified }, ?_⟩
     unfold buildSR
-    simp [hev', hguard, hroots, hrel, hvtc, hco, hn, hsg]
-
-/-- **The document contains the content tree it was given, unchanged.** -/
-theorem content_unchanged (a : DocArgs) (d : Doc) (h : buildSR a = .ok d) : d.content = a.tree := by
-  obtain ⟨_, _, _, hc, _⟩ := built_fields a d h
-  exact hc
+    simp [hev', hguard, hroots, hconv', hrel, hvtc, hco, hn, hsg]
 
 /-- **Evidence partition.**  With `refs` the instance UIDs referenced by IMAGE/COMPOSITE items at any depth
 and `firstByInst` the supplied instances with duplicates collapsed (first occurrence kept):
@@ -277,17 +280,27 @@ theorem reference_without_evidence_refused (a : DocArgs) (it : Item) (r : Ref) (
     (hvt : it.vt = "IMAGE" ∨ it.vt = "COMPOSITE") (hr : it.ref = some r) (hmiss : r.inst ∉ a.evidence.map (·.inst)) :
     ∀ d, buildSR a ≠ .ok d := by
   intro d hd
-  obtain ⟨_, _, _, _, _, _, hsup, _⟩ := (accepted_iff a).mp ⟨d, hd⟩
+  obtain ⟨_, _, _, _, _, _, _, hsup, _⟩ := (accepted_iff a).mp ⟨d, hd⟩
   obtain ⟨r', hr', hin⟩ := hsup it ((mem_descendants_iff _ _).mpr hit) hvt
   rw [hr] at hr'
   cases hr'
   exact hmiss hin
 
+/-- An item at any depth without relationship type, or with a value type outside the enumeration, is refused. -/
+theorem malformed_item_refused (a : DocArgs) (it : Item) (hit : Below a.tree it)
+    (hbad : it.rel = none ∨ Gen.srValueTypes.contains it.vt = false) : ∀ d, buildSR a ≠ .ok d := by
+  intro d hd
+  obtain ⟨_, _, _, hconv, _⟩ := (accepted_iff a).mp ⟨d, hd⟩
+  have := hconv.2 it ((mem_descendants_iff _ _).mpr hit)
+  rcases hbad with h | h
+  · rw [h] at this; simp at this
+  · rw [h] at this; simp at this
+
 /-- **Enhanced and Comprehensive SR refuse a tree that holds a SCOORD3D item at any depth.** -/
 theorem scoord3d_refused_any_depth (a : DocArgs) (hcls : a.cls = .enhanced ∨ a.cls = .comprehensive) (it : Item)
     (hit : Below a.tree it) (hvt : it.vt = "SCOORD3D") : ∀ d, buildSR a ≠ .ok d := by
   intro d hd
-  obtain ⟨_, _, _, _, _, _, _, h3d⟩ := (accepted_iff a).mp ⟨d, hd⟩
+  obtain ⟨_, _, _, _, _, _, _, _, h3d⟩ := (accepted_iff a).mp ⟨d, hd⟩
   have : a.cls ≠ .comprehensive3d := by rcases hcls with h | h <;> simp [h]
   exact h3d this it ((mem_descendants_iff _ _).mpr hit) hvt
 
@@ -295,8 +308,9 @@ theorem scoord3d_refused_any_depth (a : DocArgs) (hcls : a.cls = .enhanced ∨ a
 theorem scoord3d_refusal_kind (a : DocArgs) (hcls : a.cls = .enhanced ∨ a.cls = .comprehensive) (it : Item)
     (hit : Below a.tree it) (hvt : it.vt = "SCOORD3D")
     (hok : ∃ d, buildSR { a with cls := .comprehensive3d } = .ok d) : buildSR a = .error .value := by
-  obtain ⟨hev, hver, hroots, hrel, hvtc, hseq, hrefs, _⟩ := (accepted_iff _).mp hok
-  simp only at hev hver hroots hrel hvtc hseq hrefs
+  obtain ⟨hev, hver, hroots, hconv, hrel, hvtc, hseq, hrefs, _⟩ := (accepted_iff _).mp hok
+  simp only at hev hver hroots hconv hrel hvtc hseq hrefs
+  have hconv' := (convertTree_ok_iff _).mpr hconv
   obtain ⟨refs, hr⟩ := refUids_ok_of_supplied a.tree a.evidence hseq hrefs
   have hall : ∀ u ∈ refs, u ∈ a.evidence.map (·.inst) := by
     intro u hu
@@ -321,14 +335,14 @@ theorem scoord3d_refusal_kind (a : DocArgs) (hcls : a.cls = .enhanced ∨ a.cls 
     | cons _ _ => rfl
   unfold buildSR
   rcases hcls with hc | hc
-  · simp [hev', hguard, hroots, hrel, hvtc, hco, hn, hc, scoord3dGuard, Gen.srScoord3dGuardEnhanced, hn0]
-  · simp [hev', hguard, hroots, hrel, hvtc, hco, hn, hc, scoord3dGuard, Gen.srScoord3dGuardComprehensive, hn0]
+  · simp [hev', hguard, hroots, hconv', hrel, hvtc, hco, hn, hc, scoord3dGuard, Gen.srScoord3dGuardEnhanced, hn0]
+  · simp [hev', hguard, hroots, hconv', hrel, hvtc, hco, hn, hc, scoord3dGuard, Gen.srScoord3dGuardComprehensive, hn0]
 
 /-- Comprehensive 3D SR is indifferent to SCOORD3D items. -/
 theorem comprehensive3d_accepts_scoord3d (a : DocArgs) (hcls : a.cls = .comprehensive3d) :
     (∃ d, buildSR a = .ok d) ↔
       a.evidence ≠ [] ∧ (a.verified = true → a.hasObserver = true ∧ a.hasOrganization = true) ∧ a.nRoots = 1 ∧
-      a.tree.rel = none ∧ a.tree.vt = "CONTAINER" ∧
+      Convertible a.tree ∧ a.tree.rel = none ∧ a.tree.vt = "CONTAINER" ∧
       a.tree.hasSeq = true ∧ RefsSupplied a.tree a.evidence := by
   rw [accepted_iff]
   simp [hcls]
@@ -349,11 +363,6 @@ theorem unverified_needs_no_details (a : DocArgs) (hv : a.verified = false) (o g
     (∃ d, buildSR a = .ok d) ↔ (∃ d, buildSR { a with hasObserver := o, hasOrganization := g } = .ok d) := by
   rw [accepted_iff, accepted_iff]
   simp [hv]
-
-/-- the flag written is the flag given -/
-theorem verification_flag (a : DocArgs) (d : Doc) (h : buildSR a = .ok d) : d.verifiedFlag = a.verified := by
-  obtain ⟨_, _, _, _, _, _, _, hv⟩ := built_fields a d h
-  exact hv
 
 /-! ## the root item through write and parse -/
 
@@ -558,18 +567,23 @@ theorem segment_reference_spec (s : Seg) (seg : Int) (fs : Option (List Int)) (r
       exact ⟨f, hf⟩
 
 /-- **`ReferencedSegment.from_segmentation`, sources (derivation information present).**  When some named
-frame records a source image, the reference lists as source images exactly the instances the named frames
-were derived from — each instance once, each with the frame numbers recorded for it in the frame that
-names it first — and no source series. -/
+frame records a source image, the reference lists as source images exactly the instances the named frames were derived
+from — each instance once — and for every listed instance exactly the frames of it that the named frames derive from:
+no frame numbers iff some named frame derives from the instance as a whole (a source item without frame numbers),
+otherwise the set of all frame numbers any named frame records for it (`Whole` / `HasFrame` over all source items of all
+named frames); no source series. -/
 theorem segment_sources_derived (s : Seg) (seg : Int) (fs : Option (List Int)) (r : SegmentRef)
     (h : refSegment s seg fs = .ok r)
     (hsrc : ∃ f fi, NamedBy s seg fs f ∧ s.frame? f = some fi ∧ frameSources fi ≠ []) :
-    r.series = none ∧ (r.sources.map (·.inst)).Nodup ∧
-    (∀ x ∈ r.sources, ∃ f fi, NamedBy s seg fs f ∧ s.frame? f = some fi ∧ x ∈ frameSources fi) ∧
-    (∀ f fi, NamedBy s seg fs f → s.frame? f = some fi → ∀ x ∈ frameSources fi, ∃ y ∈ r.sources, y.inst = x.inst) := by
+    ∃ L : List SrcImg,
+      (∀ x, x ∈ L ↔ ∃ f fi, NamedBy s seg fs f ∧ s.frame? f = some fi ∧ x ∈ frameSources fi) ∧
+      r.series = none ∧ (r.sources.map (·.inst)).Nodup ∧
+      (∀ x ∈ L, ∃ y ∈ r.sources, y.inst = x.inst) ∧
+      (∀ y ∈ r.sources, (∃ x ∈ L, x.inst = y.inst) ∧ (y.frames = none ↔ Whole L y.inst) ∧
+        (∀ l, y.frames = some l → ∀ f, f ∈ l ↔ HasFrame L y.inst f)) := by
   obtain ⟨_, infos, hA, hB, _, htail⟩ := refSegment_infos s seg fs r h
-  have hflat : ∀ x, x ∈ infos.flatMap frameSources ↔ ∃ f fi, NamedBy s seg fs f ∧ s.frame? f = some fi ∧ x ∈ frameSources fi := by
-    intro x
+  refine ⟨infos.flatMap frameSources, ?_, ?_⟩
+  · intro x
     simp only [List.mem_flatMap]
     constructor
     · rintro ⟨fi, hfi, hx⟩
@@ -579,24 +593,28 @@ theorem segment_sources_derived (s : Seg) (seg : Int) (fs : Option (List Int)) (
       obtain ⟨fi', a', _, c'⟩ := hA f a
       rw [b] at a'; cases a'
       exact ⟨fi, c', hx⟩
-  have hnonempty : (!(gatherSources (infos.flatMap frameSources) []).isEmpty) = true := by
-    obtain ⟨f, fi, a, b, c⟩ := hsrc
-    cases hl : frameSources fi with
-    | nil => exact absurd hl c
-    | cons x xs =>
-      have hx : x ∈ infos.flatMap frameSources := (hflat x).mpr ⟨f, fi, a, b, by simp [hl]⟩
-      obtain ⟨y, hy, _⟩ := gatherSources_complete _ [] x hx (by simp)
-      cases hg : gatherSources (infos.flatMap frameSources) [] with
-      | nil => rw [hg] at hy; simp at hy
-      | cons _ _ => rfl
-  simp only at htail
-  rw [if_pos hnonempty] at htail
-  subst htail
-  refine ⟨rfl, gatherSources_nodup _ _, ?_, ?_⟩
-  · intro x hx
-    exact (hflat x).mp (gatherSources_sub _ _ x hx).1
-  · intro f fi a b x hx
-    exact gatherSources_complete _ [] x ((hflat x).mpr ⟨f, fi, a, b, hx⟩) (by simp)
+  · have hspec := gatherSources_spec (infos.flatMap frameSources)
+    have hnonempty : (!(gatherSources (infos.flatMap frameSources)).isEmpty) = true := by
+      obtain ⟨f, fi, a, b, c⟩ := hsrc
+      cases hl : frameSources fi with
+      | nil => exact absurd hl c
+      | cons x xs =>
+        obtain ⟨fi', a', _, c'⟩ := hA f a
+        rw [b] at a'; cases a'
+        have hx : x ∈ infos.flatMap frameSources := List.mem_flatMap.mpr ⟨fi, c', by simp [hl]⟩
+        have := hspec.complete x hx
+        cases hg : gatherSources (infos.flatMap frameSources) with
+        | nil => rw [hg] at this; simp at this
+        | cons _ _ => rfl
+    simp only at htail
+    rw [if_pos hnonempty] at htail
+    subst htail
+    refine ⟨rfl, hspec.nodup, ?_, ?_⟩
+    · intro x hx
+      obtain ⟨y, hy, he⟩ := List.mem_map.mp (hspec.complete x hx)
+      exact ⟨y, hy, he⟩
+    · intro y hy
+      exact hspec.elems y hy
 
 /-- **… sources (no derivation information).**  When no named frame records a source image, the reference
 falls back to the segmentation's referenced series: its listed instances (without frame numbers), or —
@@ -613,7 +631,7 @@ theorem segment_sources_fallback (s : Seg) (seg : Int) (fs : Option (List Int)) 
     intro fi hfi
     obtain ⟨f, a, b⟩ := hB fi hfi
     exact hno f fi a b
-  simp only [hempty, gatherSources, List.isEmpty_nil, Bool.not_true, Bool.false_eq_true, if_false] at htail
+  simp only [hempty, gatherSources, List.foldl_nil, List.isEmpty_nil, Bool.not_true, Bool.false_eq_true, if_false] at htail
   cases hser : s.refSeries with
   | none => simp [hser] at htail
   | some ser =>
@@ -672,41 +690,57 @@ theorem segmentation_frame_reference_spec (s : Seg) (fs : Option (List Int)) (se
           exact mem_framesOfSegment s want f
 
 /-- **… source image and source frames (derivation information present).**  When some named frame records a
-source image, every named frame that records one records this same single instance, the reference names
-that instance, and the source frame numbers it names are exactly the frames of the source image that the
-named segmentation frames were derived from (never the segmentation's own frame numbers). -/
+source image, every named frame that records one records this same single instance, the reference names that instance,
+and its frame numbers are those of the source image the named segmentation frames were derived from (never the
+segmentation's own frame numbers): none as soon as one named frame derives from the image as a whole (source item without
+frame numbers), otherwise exactly the union of the frame numbers the named frames record. -/
 theorem segmentation_frame_source_derived (s : Seg) (fs : Option (List Int)) (seg : Option Int) (r : SegFrameRef)
     (h : refSegFrame s fs seg = .ok r) (hsrc : ∃ f ∈ r.frames, ∃ src, FrameHasSrc s f src) :
-    (∀ f ∈ r.frames, ∀ fi, s.frame? f = some fi → ∀ l, fi.src = some l →
-        ∃ src, l = [src] ∧ src.cls = r.source.cls ∧ src.inst = r.source.inst) ∧
-    (∀ x, x ∈ srcFramesOf r.source ↔ ∃ f ∈ r.frames, ∃ src, FrameHasSrc s f src ∧ x ∈ srcFramesOf src) := by
+    (∀ f ∈ r.frames, ∀ src, FrameHasSrc s f src → src.cls = r.source.cls ∧ src.inst = r.source.inst) ∧
+    ((∃ f ∈ r.frames, ∃ src, FrameHasSrc s f src ∧ src.frames = none) → r.source.frames = none) ∧
+    ((∀ f ∈ r.frames, ∀ src, FrameHasSrc s f src → src.frames ≠ none) →
+      ∀ x, x ∈ srcFramesOf r.source ↔ ∃ f ∈ r.frames, ∃ src, FrameHasSrc s f src ∧ x ∈ srcFramesOf src) := by
   obtain ⟨_, fnums, a, sn, src, _, hloop, hs, _, rfl⟩ := refSegFrame_unpack s fs seg r h
   have inv := segFrameLoop_inv s fnums _ a hloop
   simp only at hsrc ⊢
   obtain ⟨f0, hf0, src0, fi0, hfi0, hsrc0⟩ := hsrc
   obtain ⟨fi0', h1, _, h3⟩ := inv.valid f0 hf0
   rw [hfi0] at h1; cases h1
-  obtain ⟨src1, hl1, hu⟩ := h3 _ hsrc0
+  have hu : a.srcUids = some (src0.cls, src0.inst) := by
+    rcases h3 with h3 | ⟨src1, h3, hu⟩
+    · rw [hsrc0] at h3; cases h3
+    · rw [hsrc0] at h3; cases h3; exact hu
   simp only [segFrameSource, hu] at hs
   cases hs
-  constructor
-  · intro f hf fi hfi l hl
+  refine ⟨?_, ?_, ?_⟩
+  · rintro f hf src' ⟨fi, hfi, hsingle⟩
     obtain ⟨fi', h1, _, h3⟩ := inv.valid f hf
     rw [hfi] at h1; cases h1
-    obtain ⟨src2, hl2, hu2⟩ := h3 l hl
-    rw [hu] at hu2
-    simp only [Option.some.injEq, Prod.mk.injEq] at hu2
-    exact ⟨src2, hl2, hu2.1.symm, hu2.2.symm⟩
-  · intro x
+    rcases h3 with h3 | ⟨src2, h3, hu2⟩
+    · rw [hsingle] at h3; cases h3
+    · rw [hsingle] at h3; cases h3
+      rw [hu] at hu2
+      simp only [Option.some.injEq, Prod.mk.injEq] at hu2
+      exact ⟨hu2.1.symm, hu2.2.symm⟩
+  · intro hw
+    have : a.srcWhole = true := inv.whole.mpr (Or.inr hw)
+    simp [this]
+  · intro hall x
+    have hnw : a.srcWhole = false := by
+      cases hw : a.srcWhole with
+      | false => rfl
+      | true =>
+        rcases inv.whole.mp hw with h' | ⟨f, hf, src', h1, h2⟩
+        · cases h'
+        · exact absurd h2 (hall f hf src' h1)
     have := inv.frames x
     simp only [List.not_mem_nil, false_or] at this
     rw [← this]
     unfold srcFramesOf
     by_cases he : a.srcFrames.isEmpty = true
-    · simp only [he, if_true]
-      have : a.srcFrames = [] := by simpa using he
-      simp [this]
-    · simp [he]
+    · have he' : a.srcFrames = [] := by simpa using he
+      simp [hnw, he']
+    · simp [hnw, he]
 
 /-- **… source image (no derivation information).**  When no named frame records a source image, the
 reference names the single instance of the segmentation's referenced series, without frame numbers; a
@@ -768,8 +802,8 @@ example : (findContentItems exTree { vt := some "IMAGE" } false).map (·.map Ite
 /-- frames 1..4 of segments 1,2,1,2; frames of segment 1 derive from source frames 17 and 5 of one instance -/
 def exSeg : Seg :=
   { isSeg := true, cls := "seg", inst := "9.1", tiled := true,
-    frames := [⟨1, some [⟨"ct", "7.1", some [17]⟩]⟩, ⟨2, some [⟨"ct", "7.1", some [23]⟩]⟩,
-               ⟨1, some [⟨"ct", "7.1", some [5]⟩]⟩, ⟨2, none⟩],
+    frames := [⟨1, some [some [⟨"ct", "7.1", some [17]⟩]]⟩, ⟨2, some [some [⟨"ct", "7.1", some [23]⟩]]⟩,
+               ⟨1, some [some [⟨"ct", "7.1", some [5]⟩]]⟩, ⟨2, none⟩],
     refSeries := some "7", refInstances := some [⟨"ct", "7.1"⟩] }
 
 example : (refSegFrame exSeg none (some 1)).map (fun r => (r.frames, r.segment, r.source)) =
@@ -783,6 +817,16 @@ example : (refSegment exSeg 2 none).map (fun r => (r.frames, r.sources, r.series
 example : (refSegment exSeg 2 (some [4])).map (fun r => (r.frames, r.sources, r.series)) =
     .ok (some [4], [⟨"ct", "7.1", none⟩], none) := by decide
 example : (refSegment exSeg 1 (some [2])).toBool = false := by decide
+/-- by segment: BOTH source frames the two frames of segment 1 derive from (17 and 5), as the by-frame builder names them -/
+example : (refSegment exSeg 1 none).map (fun r => r.sources) = .ok [⟨"ct", "7.1", some [17, 5]⟩] := by decide
+/-- a frame derived from the whole source image makes the reference name no frame numbers, in both builders -/
+def exSegWhole : Seg := { exSeg with frames := [⟨1, some [some [⟨"ct", "7.1", none⟩]]⟩, ⟨1, some [some [⟨"ct", "7.1", some [5]⟩]]⟩] }
+example : (refSegment exSegWhole 1 none).map (fun r => r.sources) = .ok [⟨"ct", "7.1", none⟩] := by decide
+example : (refSegFrame exSegWhole (some [1, 2]) none).map (fun r => r.source) = .ok ⟨"ct", "7.1", none⟩ := by decide
+/-- several derivation items / several source images: the by-frame builder refuses, the by-segment builder lists all -/
+def exSegMulti : Seg := { exSeg with frames := [⟨1, some [some [⟨"ct", "7.1", some [1]⟩, ⟨"ct", "7.2", none⟩], none, some [⟨"ct", "7.1", some [2]⟩]]⟩] }
+example : (refSegFrame exSegMulti (some [1]) none).toBool = false := by decide
+example : (refSegment exSegMulti 1 none).map (fun r => r.sources) = .ok [⟨"ct", "7.1", some [1, 2]⟩, ⟨"ct", "7.2", none⟩] := by decide
 
 example : (buildKO [⟨"ct", "1.1"⟩, ⟨"ct", "1.1"⟩] true exEvd).map (fun d => rows d.current) =
     .ok [⟨"st1", "se1", "1.1", "ct"⟩] := by decide
